@@ -40,11 +40,13 @@ def cursor_offset(e, cursors):
     return None
 
 
-def byte_expr(e, cursors):
-    """(decl, k) if e reads the byte p[k] (through *, [], casts, tolower/toupper)"""
+def byte_expr(e, cursors, aliases=None):
+    """(decl, k) if e reads the byte p[k] (through *, [], casts, tolower/toupper), or is a local that holds that byte"""
     s = X.strip(e)
     if s is None:
         return None
+    if aliases and s.get("k") == "ref" and s.get("d") in aliases:
+        return aliases[s["d"]]
     if s.get("k") == "un" and s.get("op") == "*":
         return cursor_offset(s["ch"][0], cursors)
     if s.get("k") == "index":
@@ -54,50 +56,50 @@ def byte_expr(e, cursors):
             return b[0], b[1] + k
         return None
     if s.get("k") == "call" and X.callee_name(s) in ("tolower", "toupper") and s["ch"][1:]:
-        return byte_expr(s["ch"][1], cursors)
+        return byte_expr(s["ch"][1], cursors, aliases)
     if s.get("k") == "assign" and s.get("op") == "=":
-        return byte_expr(s["ch"][1], cursors)      # (c = *s)
+        return byte_expr(s["ch"][1], cursors, aliases)      # (c = *s)
     return None
 
 
-def ctype_byte(e, cursors):
+def ctype_byte(e, cursors, aliases=None):
     """(decl,k) if e is a ctype classification of byte p[k] (glibc table form or function form)"""
     s = X.strip(e)
     if s is None:
         return None
     if s.get("k") == "bin" and s.get("op") == "&":
-        return ctype_byte(s["ch"][0], cursors)
+        return ctype_byte(s["ch"][0], cursors, aliases)
     if s.get("k") == "index":
         b0 = X.strip(s["ch"][0])
         if b0.get("k") == "un" and b0.get("op") == "*":
             c0 = X.strip(b0["ch"][0])
             if c0.get("k") == "call" and X.callee_name(c0) in CTYPE_TABLES:
-                return byte_expr(s["ch"][1], cursors)
+                return byte_expr(s["ch"][1], cursors, aliases)
     if s.get("k") == "call" and X.callee_name(s) in CTYPE_FUNCS and s["ch"][1:]:
-        return byte_expr(s["ch"][1], cursors)
+        return byte_expr(s["ch"][1], cursors, aliases)
     return None
 
 
-def nz_facts(cond, truth, cursors):
+def nz_facts(cond, truth, cursors, aliases=None):
     """bytes known non-NUL when cond evaluates to truth: set of (decl, k)"""
     n = X.strip(cond)
     if n is None:
         return set()
     k = n.get("k")
     if k == "un" and n.get("op") == "!":
-        return nz_facts(n["ch"][0], not truth, cursors)
+        return nz_facts(n["ch"][0], not truth, cursors, aliases)
     if k == "bin":
         op = n.get("op")
         a, b = n["ch"][0], n["ch"][1]
         if op == "&&":
-            return (nz_facts(a, True, cursors) | nz_facts(b, True, cursors)) if truth else (nz_facts(a, False, cursors) & nz_facts(b, False, cursors))
+            return (nz_facts(a, True, cursors, aliases) | nz_facts(b, True, cursors, aliases)) if truth else (nz_facts(a, False, cursors, aliases) & nz_facts(b, False, cursors, aliases))
         if op == "||":
-            return (nz_facts(a, True, cursors) & nz_facts(b, True, cursors)) if truth else (nz_facts(a, False, cursors) | nz_facts(b, False, cursors))
+            return (nz_facts(a, True, cursors, aliases) & nz_facts(b, True, cursors, aliases)) if truth else (nz_facts(a, False, cursors, aliases) | nz_facts(b, False, cursors, aliases))
         if op in ("==", "!="):
             eq = (op == "==") == truth
             for x, y in ((a, b), (b, a)):
                 cv = X.const_val(y)
-                be = byte_expr(x, cursors)
+                be = byte_expr(x, cursors, aliases)
                 if be is not None and cv is not None:
                     if eq and cv != 0:
                         return {be}
@@ -107,12 +109,12 @@ def nz_facts(cond, truth, cursors):
         if op in ("<", ">", "<=", ">="):
             return set()
         if op == "&":
-            cb = ctype_byte(n, cursors)
+            cb = ctype_byte(n, cursors, aliases)
             return {cb} if (cb is not None and truth) else set()
-    be = byte_expr(n, cursors)
+    be = byte_expr(n, cursors, aliases)
     if be is not None:
         return {be} if truth else set()
-    cb = ctype_byte(n, cursors)
+    cb = ctype_byte(n, cursors, aliases)
     if cb is not None and truth:
         return {cb}
     return set()
@@ -146,7 +148,56 @@ def analyse(fn, cursors, entry_safe=0, justified=None, noreturn=("libast_fatal_e
                 be = (b[0], b[1] + kk) if kk is not None else (b[0], None)
         return be
 
+    def aliases_of(state):
+        return {x[1]: (x[2], x[3]) for x in state if x[0] == "alias"}
+
+    def shift_aliases(state, d, by):
+        """the cursor d has moved by `by`: a local that holds p[k] now holds p[k - by]; by None = re-pointed, aliases die"""
+        out = []
+        for x in state:
+            if x[0] == "alias" and x[2] == d:
+                if by is not None:
+                    out.append(("alias", x[1], d, x[3] - by))
+            else:
+                out.append(x)
+        return frozenset(out)
+
     def transfer(state, n, blk, report=False):
+        st_ = _transfer(state, n, blk, report)
+        k = n.get("k")
+        # locals that hold a byte at a known distance from a cursor (next = p[1]): a later test of the local is a test of that byte
+        if k == "un" and n.get("op") in ("++", "--"):
+            t = X.strip(n["ch"][0])
+            if t.get("k") == "ref" and t.get("d") in cursors:
+                return shift_aliases(st_, t["d"], 1 if n["op"] == "++" else -1)
+        if k == "assign":
+            t = X.strip(n["ch"][0])
+            if t.get("k") == "ref" and t.get("d") in cursors:
+                kk = X.const_val(n["ch"][1]) if n.get("op") in ("+=", "-=") else None
+                if kk is not None:
+                    return shift_aliases(st_, t["d"], kk if n["op"] == "+=" else -kk)
+                return shift_aliases(st_, t["d"], None)
+            if t.get("k") == "ref" and t.get("rk") == "local" and t.get("d") not in cursors:
+                st2 = frozenset(x for x in st_ if not (x[0] == "alias" and x[1] == t["d"]))
+                if n.get("op") == "=":
+                    be_ = byte_expr(n["ch"][1], cursors)
+                    if be_ is not None and not any(y.get("k") == "un" and y.get("op") in ("++", "--") for y in walk(n["ch"][1])):
+                        st2 = st2 | {("alias", t["d"], be_[0], be_[1])}
+                return st2
+        if k == "decl":
+            st2 = st_
+            for dcl in n.get("decls", ()):
+                if dcl["d"] in cursors:
+                    continue
+                st2 = frozenset(x for x in st2 if not (x[0] == "alias" and x[1] == dcl["d"]))
+                if dcl.get("init") is not None:
+                    be_ = byte_expr(dcl["init"], cursors)
+                    if be_ is not None and not any(y.get("k") == "un" and y.get("op") in ("++", "--") for y in walk(dcl["init"])):
+                        st2 = st2 | {("alias", dcl["d"], be_[0], be_[1])}
+            return st2
+        return st_
+
+    def _transfer(state, n, blk, report=False):
         k = n.get("k")
         be = reads_in(n)
         if be is not None:
@@ -222,14 +273,15 @@ def analyse(fn, cursors, entry_safe=0, justified=None, noreturn=("libast_fatal_e
         return state
 
     def refine(state, cond, truth, blk):
+        al = aliases_of(state)
         if isinstance(truth, tuple):
-            be = byte_expr(cond, cursors)
+            be = byte_expr(cond, cursors, al)
             if be is not None and get(state, be[0]) is not None:
                 if truth[0] == "case" and truth[1] not in (None, 0):
                     return put(state, be[0], max(get(state, be[0]), be[1] + 1))
             return state
         st = state
-        for d, off in nz_facts(cond, truth, cursors):
+        for d, off in nz_facts(cond, truth, cursors, al):
             cur = get(st, d)
             if cur is not None and off >= 0 and off <= cur:
                 st = put(st, d, max(cur, off + 1))
